@@ -292,6 +292,15 @@ std::string c03_check(const std::vector<uint8_t> &b, const Snapshot &mem, std::s
         if (v == 0 || 512ull * (v - 1) != f.param_end)
             return fail("POINT.DATA_START", "POINT:DATA_START is block " + tos(v) + ", the data section starts at block " + tos(f.param_end / 512 + 1));
     }
+    // two records of one group (or two groups) whose names are equal once stored: any reader keeps only one of them
+    for (size_t i = 0; i < f.groups.size(); ++i)
+        for (size_t j = i + 1; j < f.groups.size(); ++j)
+            if (upper(f.groups[i].name) == upper(f.groups[j].name))
+                return fail("duplicate-name-after-uppercasing/group", "two group records are both named '" + upper(f.groups[i].name) + "' in the file (distinct in memory only by letter case)");
+    for (size_t i = 0; i < f.params.size(); ++i)
+        for (size_t j = i + 1; j < f.params.size(); ++j)
+            if (f.params[i].group_id == f.params[j].group_id && upper(f.params[i].name) == upper(f.params[j].name))
+                return fail("duplicate-name-after-uppercasing/parameter", "two parameter records of one group are both named '" + upper(f.params[i].name) + "' in the file (distinct in memory only by letter case)");
     // names upper-case, lock as sign: compare the decoded tree with memory
     for (auto &g : f.groups) if (g.name != upper(g.name)) return fail("name-case", "group name '" + g.name + "' stored in lower case");
     for (auto &p : f.params) if (p.name != upper(p.name)) return fail("name-case", "parameter name '" + p.name + "' stored in lower case");
